@@ -129,6 +129,10 @@ def c22_congruence(R):
             if not ok:
                 a, b = ast.unparse(dist.left), ast.unparse(dist.right)
                 facts = _facts(d)
+                if isinstance(dist.left, ast.Name):
+                    defs = [st.value for st in walk_no_nested(fn) if isinstance(st, ast.Assign) and len(st.targets) == 1 and isinstance(st.targets[0], ast.Name) and st.targets[0].id == a]
+                    if len(defs) == 1:
+                        a = ast.unparse(defs[0])
                 # the largest value of the width is not below any bound
                 ok = bool(re.fullmatch(r"\w+\.max_int\(\w+\.bits\)", a)) or any(f in (f"{a} >= {b}", f"{b} <= {a}", f"{a} > {b}", f"{b} < {a}") for f in facts)
             R.check(
